@@ -578,6 +578,44 @@ func c16bTemplates() []template {
 			c.Steps = append(c.Steps, sleepStep(u(r, 0, 200)), j, Step{Op: "await-quiescent", Ms: 40000}, stKILL)
 		}})
 	}
+	// Overlapping requests: 1-3 s into the slow step of the first request a second and a third one
+	// arrive for the same task (the same event again; a different event). Each is answered on its own
+	// (handlers.go runs every request on its own goroutine) and each answer is judged.
+	type ov struct {
+		kind, name, slow string
+		pre              []Step
+		first            Step
+		more             []Step
+	}
+	exitStale := tr("EXIT", "STANDBY", "DONE")
+	ovs := []ov{
+		{"fairmq", "overlap-configure-slow-init-task", "INIT TASK", nil, stCONFIGURE, []Step{stCONFIGURE, exitStale}},
+		{"fairmq", "overlap-configure-slow-connect", "CONNECT", nil, stCONFIGURE, []Step{stCONFIGURE, stSTART}},
+		{"direct", "overlap-start-slow", "START", []Step{stCONFIGURE}, stSTART, []Step{stSTART, exitStale}},
+		{"direct", "overlap-configure-slow", "CONFIGURE", nil, stCONFIGURE, []Step{stCONFIGURE, stSTOP}},
+	}
+	for _, e := range ovs {
+		e := e
+		ts = append(ts, template{e.kind, e.name, "slow-" + e.slow, func(r *rand.Rand, c *Case) {
+			c.Child.TermExit = -1
+			c.Child.SlowOn = e.slow
+			c.Child.SlowMs = u(r, 11000, 13000)
+			c.Child.ReadyAfterMs = u(r, 0, 300)
+			c.Steps = []Step{stLAUNCH, await("ready", 1, 15000)}
+			c.Steps = append(c.Steps, e.pre...)
+			first := e.first
+			first.Judged, first.Async = true, true
+			c.Steps = append(c.Steps, sleepStep(u(r, 0, 200)), first, sleepStep(u(r, 1000, 3000)))
+			for i, m := range e.more {
+				m.Judged, m.Async = true, true
+				if i > 0 {
+					c.Steps = append(c.Steps, sleepStep(u(r, 200, 1200)))
+				}
+				c.Steps = append(c.Steps, m)
+			}
+			c.Steps = append(c.Steps, Step{Op: "join"}, Step{Op: "await-quiescent", Ms: 40000}, stKILL)
+		}})
+	}
 	return ts
 }
 
